@@ -1,4 +1,5 @@
 """C18 — UnixFS metadata round-trips (spec/FSNodeMeta)."""
+import os, threading, time
 
 META = dict(
     spec="FSNodeMeta",
@@ -9,7 +10,14 @@ META = dict(
                 "ALL 4096 permission values for all 6 node types, rotated over extended patterns, call orders, entry points "
                 "(SetMode with extra non-permission bits / SetModeFromUnixPermissions) and 15 mtime classes, plus every "
                 "mutator sequence of depth 2/3 (metadata) and 3/4 (sizes); each is replayed on a real FSNode and every "
-                "accessor is compared before and after GetBytes -> FSNodeFromBytes, including the raw protobuf fields (G)."),
+                "accessor is compared before and after GetBytes -> FSNodeFromBytes, including the raw protobuf fields (G). "
+                "The specification also lists EVERY entry point that takes (mode, mtime) -- the stat-taking constructors "
+                "(FilePBDataWithStat, FolderPBDataWithStat, EmptyDirNodeWithStat, HAMTShardDataWithStat), the plain constructors "
+                "followed by the setters on the parsed node, and the paths that call them (hamt.Shard.SetStat, uio directories "
+                "WithStat, their Basic<->HAMT conversions and reloads, the importer's FileMode/FileModTime) -- and states that "
+                "the node read back has the same metadata model whatever the entry point; TLC crosses the 19 entry points with "
+                "all 15 mtime classes, 3 classes of extra os.FileMode bits and boundary + rotated permission values, and every "
+                "line is replayed through the real entry point (two harnesses: package unixfs and package unixfs/io)."),
     level_note=("Trusted: gogo/golang protobuf codec of pb.Data; projection = os.FileMode <-> list of set bit positions, "
                 "time.Time <-> (sign, seconds limbs, nanoseconds). Thin specification by nature (pure data mapping): "
                 "no trace phase, the property quantifies over inputs only."),
@@ -17,30 +25,79 @@ META = dict(
 )
 
 
+def parallel(*thunks):
+    """run independent phases (TLC model check, TLC generator, go builds) concurrently; re-raise the first exception"""
+    out, errs = [None] * len(thunks), []
+
+    def wrap(i, f):
+        try:
+            time.sleep(0.2 * i)         # vlib names TLC's metadir by the millisecond
+            out[i] = f()
+        except BaseException as e:      # noqa
+            errs.append(e)
+    ths = [threading.Thread(target=wrap, args=(i, f)) for i, f in enumerate(thunks)]
+    [t.start() for t in ths]
+    [t.join() for t in ths]
+    if errs:
+        raise errs[0]
+    return out
+
+
+def salted_cfg(ctx, cfg):
+    """materialise the generator cfg: the rotation offset of the entry-point family is the runner's seed"""
+    sdir = ctx.specdir("FSNodeMeta")
+    txt = open(os.path.join(sdir, cfg)).read()
+    out = "salt_" + cfg
+    salt = ctx.seed % 1000
+    txt = txt.replace("@SALTS8@", "{" + ", ".join(str(salt + i) for i in range(8)) + "}").replace("@SALT@", str(salt))
+    open(os.path.join(sdir, out), "w").write(txt)
+    return out
+
+
 def run(ctx):
     ctx.assumptions += ["protobuf encoding/decoding of pb.Data is lossless for set fields",
                         "time.Unix(sec, ns) with |sec| <= 2^54 represents the instant exactly"]
     ctx.cov["rule"] = ("case lines: 64 (permission blocks) x 6 node types x V rotated variants (extended bits, order, entry "
                        "point + junk bits, mtime class), 64 permission values per line => every 12-bit value per type; "
+                       "ctor lines: 19 entry points x 15 mtime classes (x 8 rotations in the thorough tier), rotated class of extra "
+                       "os.FileMode bits, 8 boundary + 16 rotated (seed) permission values per line; "
                        "meta/size lines: all mutator sequences of depth D1/D2 over the class alphabet. "
                        "non-trivial = line with non-zero extended bits or a set mtime, or a sequence with >= 2 state changes")
     quick = ctx.quick
-    ctx.tlc_mc("FSNodeMeta", "MCFSNodeMeta.tla", "MCFSNodeMeta.cfg", timeout=1800, coverage=not quick, workers=4)
-    behs = ctx.tlc_gen("FSNodeMeta", "GenFSNodeMeta.tla", "GenFSNodeMeta.cfg" if quick else "GenFSNodeMetaThorough.cfg",
-                       timeout=3000)
-    if not behs:
+    ctx.open_devs()          # load the known findings before any worker thread asks for them
+    ctx.specdir("FSNodeMeta")
+    gcfg = salted_cfg(ctx, "GenFSNodeMeta.cfg" if quick else "GenFSNodeMetaThorough.cfg")
+    # M, G-gen and the two harness builds are independent: run them concurrently
+    _, behs, binp, binio = parallel(
+        lambda: ctx.tlc_mc("FSNodeMeta", "MCFSNodeMeta.tla", "MCFSNodeMeta.cfg", timeout=1800, coverage=not quick, workers=4),
+        lambda: ctx.tlc_gen("FSNodeMeta", "GenFSNodeMeta.tla", gcfg, timeout=3000),
+        lambda: ctx.go_build("ipld/unixfs", ["ipld/unixfs/zz_verif_C18_test.go"]),
+        lambda: ctx.go_build("ipld/unixfs/io", ["ipld/unixfs/io/zz_verif_C18_test.go"]))
+    if not behs or ctx.brokens:
         return
-    binp = ctx.go_build("ipld/unixfs", ["ipld/unixfs/zz_verif_C18_test.go"])
+    # entry points above package unixfs (hamt, uio directories, importer) are replayed by the harness in package unixfs/io
+    behs_io = [b for b in behs if b["k"] == "ctor" and b["pkg"] == "io"]
+    behs = [b for b in behs if not (b["k"] == "ctor" and b["pkg"] == "io")]
+    entries = {b["entry"] for b in behs_io} | {b["entry"] for b in behs if b["k"] == "ctor"}
+    if len(entries) != 19 or not behs_io:
+        ctx.broken("entry-point family incomplete: %s" % sorted(entries))
+        return
 
     def nontrivial(b):
-        if b["k"] == "case":
+        if b["k"] in ("case", "ctor"):
             return b["expExt"] != 0 or b["expMtWire"]["present"]
         obs = [s["obs"] for s in b["steps"]]
         return sum(1 for i in range(1, len(obs)) if obs[i] != obs[i - 1]) >= 1 and len(obs) >= 2
     if ctx.replay_behaviours(binp, "TestVerifC18", "ipld/unixfs", behs, name="g", nontrivial=nontrivial,
                              timeout=1800) is None:
         return
+    if ctx.replay_behaviours(binio, "TestVerifC18", "ipld/unixfs/io", behs_io, name="gio", nontrivial=nontrivial,
+                             timeout=1800) is None:
+        return
     ncase = sum(1 for b in behs if b["k"] == "case")
-    ctx.cov["evaluations"] += 63 * ncase          # 64 permission values per case line
+    nctor = sum(len(b["ps"]) - 1 for b in behs + behs_io if b["k"] == "ctor")
+    ctx.cov["evaluations"] += 63 * ncase + nctor  # 64 permission values per case line, 24 per entry-point line
     ctx.cov["exhaustive"] = True
-    ctx.log("case lines=%d (x64 permission values), sequences=%d" % (ncase, len(behs) - ncase))
+    ctx.log("case lines=%d (x64 permission values), entry-point lines=%d (unixfs) + %d (unixfs/io), sequences=%d" %
+            (ncase, sum(1 for b in behs if b["k"] == "ctor"), len(behs_io),
+             sum(1 for b in behs if b["k"] in ("meta", "size"))))
